@@ -112,6 +112,6 @@ func TestSpongeLevel(t *testing.T) {
 				N: h.OneOf(t, "n", 1, 2, 7, 63, 64, 64), Blocks: rapid.IntRange(1, 2).Draw(t, "blocks")}
 		},
 		Check: checkHash, Require: []string{"sponge/mode2"},
-		Rule:  "public-API part (no hook): 1..64 lanes absorbed and two blocks squeezed through the build-selected permutation = scalar Curl-P-81 per lane; run on the default and the purego build, so hashes are build-independent; non-trivial = >= 2 distinct lanes; distinct by case",
+		Rule: "public-API part (no hook): 1..64 lanes absorbed and two blocks squeezed through the build-selected permutation = scalar Curl-P-81 per lane; run on the default and the purego build, so hashes are build-independent; non-trivial = >= 2 distinct lanes; distinct by case",
 	})
 }
